@@ -48,6 +48,14 @@ def run(rep):
              'write or extendor update can follow it', floor=4)
     rep.rule('B5', 'the C lookups resolve `required` (PySequence_Tuple, may '
              'run Python) before touching any cache field', floor=3)
+    rep.rule('B3c', 'C twins of B3: _lookup/_lookupAll/_subscriptions store '
+             'exactly the uncached result, under the probed key, into the '
+             'dictionary they fetched BEFORE the callback (never a re-fetched, '
+             'live one): no answer computed before a mutation survives in the '
+             'cache', floor=3)
+    rep.rule('B6', 'the extendor lists handed to in-flight walks are replaced, '
+             'never edited in place (add_extendor/remove_extendor build a new '
+             'list per ancestor; shared with C04 R04.3)', floor=2)
     rep.decline('"an interrupted lookup returns an answer that was correct '
                 'before or after the mutation" (value of a walk over a '
                 'registry mutated mid-walk)')
@@ -246,6 +254,9 @@ def run(rep):
                   'call (a detached dict is written, never a freed or a fresh one)' % unc
                   if not probs else {'problems': sorted(set(probs))[:3]},
                   construct='local-cache', node=f)
+    cside.fills(rep, u, 'B3c', only=('_lookup', '_lookupAll', '_subscriptions'))
+    from . import shared as _shared
+    _shared.extendor_index(rep, 'B6', mod)
     ch = find_def(mod, 'LookupBase.changed')
     ok = all(_sem.paths_have(ch, ['self.%s.clear()' % c, 'self.%s = {}' % c])[0]
              for c in ('_cache', '_mcache', '_scache'))
